@@ -14,7 +14,8 @@ UNITS = {
         {"name": "C03_BIN", "test": "TestC03_BIN", "quick": 60, "thorough": 800, "shards": 4, "bin": True},
     ],
     "C04": [
-        {"name": "C04_INP", "test": "TestC04_INP", "quick": 3000, "thorough": 60000, "shards": 16},
+        {"name": "C04_INP", "test": "TestC04_INP", "quick": 3000, "thorough": 60000, "shards": 12},
+        {"name": "C04_BIN", "test": "TestC04_BIN", "quick": 300, "thorough": 6000, "shards": 4, "bin": True},
     ],
     "C06": [
         {"name": "C06_INP", "test": "TestC06_INP", "quick": 1500, "thorough": 20000, "shards": 12},
@@ -40,6 +41,9 @@ UNITS = {
     ],
     "C11": [
         {"name": "C11_INP", "test": "TestC11_INP", "quick": 500, "thorough": 6000, "shards": 16, "shrink": "60s"},
+    ],
+    "C12": [
+        {"name": "C12_BIN", "test": "TestC12_BIN", "quick": 400, "thorough": 8000, "shards": 8, "bin": True},
     ],
     "C13": [
         {"name": "C13_BIN", "test": "TestC13_BIN", "quick": 300, "thorough": 6000, "shards": 6, "bin": True},
@@ -69,6 +73,8 @@ UNITS = {
 }
 
 RULES = {
+    "C12": "case = (real instance: selection mode, host list with/without placeholder, domain splitting, user-name template, no-username, user tokens; 1-6 requests: session none/new/failed-login/authenticated as user u with sub =/!= user name, host parameter absent/listed/unlisted/valid or forged/expired/wrong-issuer/wrong-key query token, login address, download address incl. X-Forwarded-For, replay transport); "
+           "non-trivial = authenticated session with a non-default dimension",
     "C13": "case = sequence of 1-9 browser actions over three cookie jars against one real instance (cookie or file store): visit /connect, login with a fault drawn from 13 fault points, cookie mutation (substitution at a position, truncation, append), cookie of an instance with other keys, fresh jar; after every action /connect is requested; "
            "plus identity contents through Marshal/Unmarshal in generated decode orders; non-trivial = a failing callback or a cookie manipulation followed by /connect",
     "C20": "case = (1-2 realms x 1-3 fake KDCs on TCP+UDP with behaviour reply / reply-and-keep-open / partial / close / silent / refuse, request realm absent / configured / other configured / unknown, Kerberos payload 0 B - 128 KiB, malformed request kinds); "
